@@ -439,10 +439,10 @@ def call_tensor(A, case, get, winfo, rng, variant=0):
     lab = True
     claimL = claimR = False
     L = S = R = None
-    sep = py_absorb(case["absorb"]) is None
+    # (a triple carries the values separately, a pair does not: read what came back, the spec judges the form)
     try:
         if get == "arrays":
-            if sep:
+            if len(out) == 3:
                 la, S, ra = out
             else:
                 la, ra = out
@@ -461,7 +461,7 @@ def call_tensor(A, case, get, winfo, rng, variant=0):
                 Ts = [t for t in ts if not (set(t.inds) & set(inds))]
                 lab &= len(Tl) <= 1 and len(Tr) <= 1 and len(Ts) <= 1 and len(Tl) + len(Tr) + len(Ts) == len(ts)
                 Tl, Tr, Ts = (Tl[0] if Tl else None), (Tr[0] if Tr else None), (Ts[0] if Ts else None)
-            elif sep:
+            elif len(out) == 3:
                 Tl, Ts, Tr = out
             else:
                 Tl, Tr = out
